@@ -53,7 +53,7 @@ Proof.
   { intro st. split; [|exact B]. intros x Hx. unfold upd_flags in Hx. cbn [sc_members set_members] in Hx.
     rewrite keys_upd in Hx. apply A. exact Hx. }
   destruct (N.eqb f O_); [apply U|]. destruct (N.eqb f H_); [apply U|]. destruct (N.eqb f V_); [apply U|].
-  destruct (N.eqb f B_); split; assumption.
+  destruct (N.eqb f B_); [split; assumption|]. destruct (mem f LIST_MODES); split; assumption.
 Qed.
 Lemma ok_fold {X} (F : schan -> X -> schan) : (forall ch x, chan_ok ch -> chan_ok (F ch x)) ->
   forall l ch, chan_ok ch -> chan_ok (fold_left F l ch).
